@@ -98,7 +98,24 @@ class Ctx(object):
         if sig in self.known_sigs:
             self.known[sig] += 1
             return
-        raise Violation(sig, msg, self.current if case is None else case)
+        v = Violation(sig, msg, self.current if case is None else case)
+        if getattr(self, 'first_violation', None) is None:
+            try:
+                self.first_violation = Violation(sig, msg, json.loads(json.dumps(v.case, default=repr)))
+            except Exception:
+                self.first_violation = v
+        raise v
+
+    def _flaky(self, e, kind):
+        """Hypothesis could not reproduce a failure it had seen (Flaky...).  If an oracle disagreement with the code under test
+        was observed in this run, that disagreement is real - the code carries state from one case to the next - and is
+        reported with the case it was first seen on; without one it is a harness problem."""
+        v = getattr(self, 'first_violation', None)
+        if v is None:
+            raise e
+        v.msg += ' [seen in a run Hypothesis could not replay (%s): the code under test keeps state between cases; the case alone may not reproduce it]' % type(e).__name__
+        self.record(v, kind)
+        self.first_violation = None
 
     def record(self, v, kind=None):
         self.violations.append({'sig': v.sig, 'msg': v.msg, 'case': v.case, 'kind': kind})
@@ -162,9 +179,13 @@ class Ctx(object):
             t()
         except Exception as e:
             if type(e).__module__.startswith('hypothesis'):
-                # Flaky / Unsatisfiable etc: a harness problem, never a violation
+                # Unsatisfiable etc: a harness problem, never a violation; Flaky: see _flaky
+                if 'Flaky' in type(e).__name__:
+                    self._flaky(e, kind)
+                    return
                 raise
             self.classify_exc(e, last.get('case'), kind)
+        self.first_violation = None
 
     def machine(self, machine_cls, n, steps, k=0, kind=None):
         from hypothesis import settings, HealthCheck, Phase, seed
@@ -178,8 +199,12 @@ class Ctx(object):
             run_state_machine_as_test(seed(self.hseed(k))(machine_cls), settings=st)
         except Exception as e:
             if type(e).__module__.startswith('hypothesis'):
+                if 'Flaky' in type(e).__name__:
+                    self._flaky(e, kind)
+                    return
                 raise
             self.classify_exc(e, machine_cls.last_history, kind)
+        self.first_violation = None
 
     def result(self):
         r = {
